@@ -26,6 +26,8 @@
 //	c.InjectReadOutage(w, after, n)         // transient storage outage: n data reads of worker w's table files fail (after `after` more)
 //	script.TimerEvery = 3; script.Advance(); c.TickWatermarks()   // event time: records with ID%3==0 register a timer, Advance
 //	                                        // inserts time markers, TickWatermarks makes the runners send watermarks
+//	c.AwaitCurrent(id, timeout)             // the job's in-memory latest checkpoint is >= id (follows AwaitPublished closely)
+//	c.FireRunnerTimers()                    // fire only the source runners' batch time-outs
 //	c.FireTimers()                          // fire all pending batch time-outs (batch MaxDelay is virtual; Await does it for you)
 //	c.Await(cond, timeout)                  // wait on explicit signals: cond is re-evaluated after every logged observation
 //	c.Log()                                 // snapshot of all observations (invocations, emissions, assignments, acks, published...)
@@ -1372,6 +1374,40 @@ func (c *Cluster) TickWatermarks() {
 			}
 		}
 	}
+}
+
+// AwaitCurrent waits (polling; liveness only) until the current job's in-memory latest checkpoint is at least id: the store
+// records a publication a few instructions after the file write returned (which is what AwaitPublished observes).
+func (c *Cluster) AwaitCurrent(id uint64, timeout time.Duration) bool {
+	deadline := time.Now().Add(timeout)
+	for {
+		j := c.curJob()
+		if j == nil {
+			return false
+		}
+		if j.VerifCurrentCheckpointID() >= id {
+			return true
+		}
+		if time.Now().After(deadline) {
+			return false
+		}
+		time.Sleep(50 * time.Microsecond)
+	}
+}
+
+// FireRunnerTimers fires only the source runners' pending batch time-outs (key-event fetch and per-operator send batches),
+// not the operators' (their pending event batch stays pending).
+func (c *Cluster) FireRunnerTimers() int {
+	c.mu.Lock()
+	ws := append([]*worker{}, c.workers...)
+	c.mu.Unlock()
+	n := 0
+	for _, w := range ws {
+		if !w.isDead() {
+			n += w.srTimer.fire()
+		}
+	}
+	return n
 }
 
 // FireTimers fires every pending batch time-out of every live worker; returns how many callbacks ran.
